@@ -288,7 +288,18 @@ def gen_cases(chk, fixtures):
                  permit=rng.random() < 0.93, scheme=rng.randrange(0, 18), pseed=rng.randrange(1 << 30))
         if rng.random() < 0.25:
             c['gi'] = {rng.choice(['dyn_scan', 'diffusion']): rng.randrange(2)}
+        if drop and kind in ('random', 'random_preserving', 'rotate') and rng.random() < 0.5:
+            c['cut'] = True
         cases.append(c)
+    # seed-independent: structured orders whose TAIL (of the permuted file) is lost
+    for f in small:
+        for kind in ('interleaved', 'slice_major', 'slices_odd_even', 'reversed', 'vols_reversed'):
+            for drop in (1, 2, f.smax + 2):
+                if drop >= f.n - f.smax:
+                    continue
+                for strict in (True, False):
+                    cases.append(dict(fixture=f.name, kind=kind, drop=drop, strict=strict, fp=False, permit=True,
+                                      scheme=1, cut=True))
     return cases
 
 
@@ -325,6 +336,11 @@ def case_order(case, f):
             return canon + rest
         k = (len(canon) // (2 * f.smax)) * f.smax
         return canon[:k] + rest + canon[k:]
+    if case.get('cut'):
+        # the recording was written in the permuted order and THEN lost its tail: the surviving records are an
+        # arbitrary subset (different slice numbers missing from different volumes; seeded C20-13)
+        full = permute(case['kind'], random.Random(case.get('pseed', 0)), list(range(f.n)), f)
+        return full[:f.n - case['drop']]
     return permute(case['kind'], random.Random(case.get('pseed', 0)), ids, f)
 
 
@@ -586,16 +602,24 @@ def eval_case(chk, case, fx, ref_cache):
         last[k] = i
     info['key_order_kept'] = keep
     info['truncated'] = case['drop'] > 0
+    # the lax order numbers volumes by occurrence in the file: that is the recorded volume of a record only when,
+    # for every slice number, the surviving records are the FIRST recorded ones (always so for a dropped tail of
+    # the recorded order; not for a file that lost records of its early volumes)
+    tvs = {}
+    for i in present:
+        tvs.setdefault(f.slices[i], []).append(f.tv[i])
+    info['occ_prefix'] = all(sorted(v) == list(range(len(v))) for v in tvs.values())
     info['keys_by_id'] = keys_by_id
     return o, mi, info
 
 
-def reference(case, fx, ref_cache):
+def reference(case, fx, ref_cache, present=None):
     """the un-permuted load of the same records with the same options"""
-    key = (case['fixture'], case['drop'], case['strict'], case['fp'], case['scheme'], tuple(sorted((case.get('gi') or {}).items())))
+    cut = tuple(present) if case.get('cut') and present is not None else None
+    key = (case['fixture'], case['drop'], case['strict'], case['fp'], case['scheme'], tuple(sorted((case.get('gi') or {}).items())), cut)
     if key not in ref_cache:
         f = fx[case['fixture']]
-        ids = list(range(f.n - case['drop']))
+        ids = list(range(f.n - case['drop'])) if cut is None else list(cut)
         text, rec = synthesise(f, ids, case['scheme'], case.get('gi'))
         ref_cache[key] = impl_load(text, rec, case['strict'], True, case['fp'])
     return ref_cache[key]
@@ -632,7 +656,7 @@ def predicates(case, o, info, f, ref):
         if m:
             out.append(('order_independent', m, None))
     claim_complete = (case['strict'] and info['distinct_keys'] and f.labels_identify) or \
-                     (not case['strict'] and info['preserving'])
+                     (not case['strict'] and info['preserving'] and info['occ_prefix'])
     if claim_complete:
         have = {}
         for i in info['present']:
@@ -654,6 +678,8 @@ def describe(case, info=None):
     d = {k: case[k] for k in ('fixture', 'kind', 'drop', 'strict', 'fp', 'permit', 'scheme')}
     if case.get('gi'):
         d['gi'] = case['gi']
+    if case.get('cut'):
+        d['cut'] = True
     if info is not None:
         d['order'] = info['order']
     return d
@@ -800,7 +826,7 @@ def run(chk: Check):
                     a, b = mout.split(' '), (line % nv).split(' ')
                     bad = [x.split('=')[0] for x, y in zip(a, b) if x != y]
                     dis = ('load:' + ','.join(bad), mout[:300], (line % nv)[:300])
-        fails = predicates(case, o, info, f, lambda: reference(case, fx, ref_cache))
+        fails = predicates(case, o, info, f, lambda: reference(case, fx, ref_cache, info['present']))
         genuine = [x for x in fails if x[2] is None]
         for name, msg, _ in genuine[:1]:
             chk.violation('property_violation', case=describe(case, info), predicate=f'{name}: {msg}',
@@ -873,7 +899,7 @@ def replay(chk, obj):
     fx = {f.name: f for f in load_fixtures()}
     f = fx[c['fixture']]
     o, mi, info = eval_case(chk, c, fx, {})
-    fails = predicates(c, o, info, f, lambda: reference(c, fx, {}))
+    fails = predicates(c, o, info, f, lambda: reference(c, fx, {}, info['present']))
     print({'status': o['status'], 'shape': o.get('shape'), 'idx': o.get('idx'), 'payload': o.get('payload')})
     for name, msg, known in fails:
         print(f'{name}: {msg}' + (f' [known finding {known}]' if known else ''))
